@@ -53,31 +53,62 @@ BOUNDED = {
     'content_model': {'test': 'replays/suite/vx_content_model.rs', 'props': ['C10', 'C13'],
                       'bound': 'HTTP bodies of 9 sizes (0 .. 100000 bytes) in 1-4 pieces through POST /{topic} and POST /cas; nu .append of byte streams '
                                'in 1, 3, 40 pieces; 18 malformed requests'},
+    'handler_model': {'test': 'replays/suite/vx_handler_model.rs', 'props': ['C14', 'C15', 'C06'],
+                      'bound': 'four scenarios on the real handlers::serve with real nu scripts: prefix-related names, a handler reacting to every '
+                               'frame with forwarded metas, explicit .append --context / spoofed meta, a closure that appends then fails'},
+    'follow_model': {'test': 'replays/suite/vx_follow_model.rs', 'props': ['C03', 'C11'],
+                     'bound': 'histories of 0 / 3 / 150 frames, 60 live appends (ephemeral mixed in) by one writer, limits 1..6 x 0..5 historical '
+                              'matches, tail, two contexts, a consumer that stalls for 3000 appends; assertions on content only'},
     'store_model': {'test': 'replays/suite/vx_store_model.rs', 'props': ['C01', 'C05', 'C06', 'C07', 'C08', 'C09'],
                     'bound': 'VX_HISTORIES histories (40 quick / 200 thorough) x 60 steps, seeded by VERIF_SEED; 12 adversarial topics, 3 contexts '
                              '(one numerically adjacent, imported), all TTL kinds, remove, reopen, last-id/limit reads'},
 }
 
 
-def run_bounded(prop_id, tier, seed):
-    import subprocess
+def run_bounded(prop_id, tier, seed, only_known=False):
+    """runs the bounded suites of a property. only_known: run just the tests that reproduce the property's open known findings
+    (so that the quick check re-observes them on every run)"""
+    import subprocess, re
     out = []
+    known = [k for k in load_known() if k['property'] == prop_id and k.get('status', 'open') == 'open' and k['obligation'].startswith('bounded.')]
     for name, b in BOUNDED.items():
         if prop_id not in b['props']:
             continue
+        known_tests = [t for k in known if k['obligation'] == 'bounded.' + name for t in k.get('tests', [])]
+        # a test that reproduces an open finding of ANOTHER property sharing this suite is not a new failure here
+        all_known_tests = [t for k in load_known() if k.get('status', 'open') == 'open' and k['obligation'] == 'bounded.' + name for t in k.get('tests', [])]
+        if only_known and not known_tests:
+            continue
         env = dict(os.environ, VERIF_SEED=str(seed or 1), VX_HISTORIES='200' if tier == 'thorough' else '40')
+        if only_known:
+            env['VX_TEST_FILTER'] = ' '.join(known_tests)
         try:
             pr = subprocess.run([os.path.join(ROOT, 'tools', 'run_replay.sh'), os.path.join(ROOT, b['test']), REPO],
                                 capture_output=True, text=True, timeout=3000, env=env)
+            failed_tests = re.findall(r'^test (\S+) \.\.\. FAILED', pr.stdout, flags=re.M)
+            if not failed_tests:
+                failed_tests = [m for m in re.findall(r"thread '([^']+)' \(\d+\) panicked", pr.stdout)]
+            failed_tests = sorted(set(t.split('::')[-1] for t in failed_tests))
             failed = pr.returncode != 0 and 'test result: FAILED' in pr.stdout
             broken = pr.returncode != 0 and not failed
-            msg = ''
+            msgs = {}
+            cur = None
             for ln in pr.stdout.split('\n'):
-                if 'panicked at' in ln or ln.startswith('[seed') or 'assertion' in ln:
-                    msg += ln.strip() + ' '
-            out.append({'suite': name, 'bound': b['bound'], 'failed': failed, 'broken': broken, 'message': msg[:600], 'output': pr.stdout[-3000:]})
+                m = re.search(r"thread '([^']+)' \(\d+\) panicked at (\S+)", ln)
+                if m:
+                    cur = m.group(1).split('::')[-1]
+                    msgs[cur] = ln.strip()
+                elif cur and (ln.startswith('C') or ln.startswith('[') or 'assertion' in ln) and len(msgs[cur]) < 700:
+                    msgs[cur] += ' ' + ln.strip()
+            new_failed = [t for t in failed_tests if t not in all_known_tests]
+            out.append({'suite': name, 'bound': b['bound'], 'failed': bool(failed and new_failed), 'broken': broken,
+                        'known_failed': [t for t in failed_tests if t in known_tests], 'new_failed': new_failed,
+                        'message': ' | '.join(msgs.get(t, t) for t in new_failed)[:900],
+                        'known_message': ' | '.join(msgs.get(t, t) for t in failed_tests if t in known_tests)[:600],
+                        'output': pr.stdout[-3000:], 'only_known': only_known})
         except Exception as e:  # noqa
-            out.append({'suite': name, 'bound': b['bound'], 'failed': False, 'broken': True, 'message': str(e), 'output': ''})
+            out.append({'suite': name, 'bound': b['bound'], 'failed': False, 'broken': True, 'known_failed': [], 'new_failed': [],
+                        'message': str(e), 'known_message': '', 'output': '', 'only_known': only_known})
     return out
 
 
@@ -177,8 +208,15 @@ def check(prop_id, tier, seed):
     bounded_runs = []
     will_be_undecided = not violations and (tooling or undecided or missing)
     changed_files = changed_anchor_files(prop_id)
-    if (violations or will_be_undecided or changed_files or tier == 'thorough') and os.environ.get('VX_NO_REPLAY') != '1':
-        bounded_runs = run_bounded(prop_id, tier, seed)
+    if os.environ.get('VX_NO_REPLAY') != '1':
+        full = bool(violations or will_be_undecided or changed_files or tier == 'thorough')
+        bounded_runs = run_bounded(prop_id, tier, seed, only_known=not full)
+        for br in bounded_runs:
+            for k in load_known():
+                if k['property'] == prop_id and k.get('status', 'open') == 'open' and k['obligation'] == 'bounded.' + br['suite'] \
+                        and any(t in br['known_failed'] for t in k.get('tests', [])):
+                    known_hits.append(('bounded.' + br['suite'], {'status': 'failed', 'engine': 'bounded real-code suite', 'unit': br['suite'],
+                                                                  'msg': br['known_message'], 'bounded': True}, k))
         for br in bounded_runs:
             if not br['failed']:
                 continue
@@ -259,8 +297,9 @@ def check(prop_id, tier, seed):
         'obligation_results': {n: {'status': o['status'], 'engine': o['engine'], 'unit': o['unit'], 'solver_ms': o.get('time_ms'),
                                    'bounded': o.get('bounded', False), 'bound': o.get('bound')} for n, o in sorted(mine.items())},
         'bounded_checks': [{'obligation': n, 'bound': o.get('bound'), 'status': o['status']} for n, o in sorted(bounded.items())] +
-                          [{'suite': b['suite'], 'bound': b['bound'], 'status': 'failed' if b['failed'] else ('broken' if b['broken'] else 'held'),
-                            'message': b['message']} for b in bounded_runs],
+                          [{'suite': b['suite'], 'bound': b['bound'], 'only_known_finding_tests': b['only_known'],
+                            'status': 'failed' if b['failed'] else ('broken' if b['broken'] else 'held'),
+                            'known_findings_reproduced': b['known_failed'], 'message': b['message']} for b in bounded_runs],
         'known_findings_reported': [{'obligation': n, 'what': k['what']} for n, _, k in known_hits],
         'vacuity': {'canaries_failed_as_required': canaries, 'expected_obligation_globs_unmatched': missing},
         'assumption_scan': [f'{u} line {ln}: {kind}: {txt}' for (u, ln, kind, txt) in assumptions_scan][:400],
